@@ -21,7 +21,7 @@ def base_pair():
 
 
 def generate(R, tier):
-    n = 30000 if tier == "quick" else 600000
+    n = 30000 if tier == "quick" else 2000000
     s0, p0 = base_pair()
     # TTL sweep
     step = 7 if tier == "quick" else 1
